@@ -255,6 +255,9 @@ func runC09(c *fw.Ctx) {
 		{Kind: "Upload", Proto: "resumable", Bucket: "b", Name: "d/sub/y", Data: []byte("deep"), Meta: gcs.ObjMeta{ContentType: "text/y", CacheControl: "no-cache"}},
 		{Kind: "Upload", Proto: "media", Bucket: "b", Name: "a.txt", Data: []byte("A-overwritten"), Meta: gcs.ObjMeta{ContentType: "text/2"}},
 		{Kind: "Upload", Proto: "media", Bucket: "b", Name: "d-e", Data: []byte{}, Meta: ct},
+		// a name that extends another object's name by a suffix a store might use for its own scratch files
+		{Kind: "Upload", Proto: "multipart", Bucket: "b", Name: "a.txt.tmp", Data: []byte("not a temp file"), Meta: gcs.ObjMeta{ContentType: "text/tmp", Metadata: map[string]string{"own": "meta"}}},
+		P("a.txt.tmp", `{"metadata":{"t":"1"}}`),
 		// a name that is, or was, a directory of other objects (only explored while no object lives below it)
 		{Kind: "Upload", Proto: "media", Bucket: "b", Name: "d", Data: []byte("D"), Meta: ct},
 		{Kind: "Upload", Proto: "multipart", Bucket: "b", Name: "d/sub", Data: []byte("DS"), Meta: ct},
